@@ -44,6 +44,24 @@ type c12Value struct {
 var uuidRe = regexp.MustCompile(`^[0-9a-fA-F]{8}-[0-9a-fA-F]{4}-[0-9a-fA-F]{4}-[0-9a-fA-F]{4}-[0-9a-fA-F]{12}$`)
 
 // refString evaluates the declared rules of a string-like type on one value.
+// c12FormatValues: strings whose validity for a well-known string format is not in doubt
+var c12FormatValues = map[string]map[string]bool{
+	"email":    {"bob@example.com": true, "alice@other.org": true, "not an email": false, "missing-at.example.com": false},
+	"hostname": {"example.com": true, "host-1.internal": true, "bad host!": false, "-leading.dash": false},
+	"ipv4":     {"10.0.0.1": true, "192.168.1.20": true, "10.0.0.256": false, "abc": false},
+	"ipv6":     {"2001:db8::68": true, "::1": true, "2001:db8::g": false, "10.0.0.1": false},
+	"uri":      {"https://example.com/a": true, "mailto:x@example.com": true, "not a uri": false},
+}
+
+// c12FormatPatterns: a pattern per format which accepts one valid value and rejects another
+var c12FormatPatterns = map[string]string{
+	"email":    "^[a-z]+@example\\.com$",
+	"hostname": "^[a-z.]+$",
+	"ipv4":     "^10\\.",
+	"ipv6":     "^2001:",
+	"uri":      "^https://",
+}
+
 func refString(t *jT, s string) bool {
 	if t.Kind == kKey {
 		switch t.KeyFmt {
@@ -61,6 +79,16 @@ func refString(t *jT, s string) bool {
 			}
 		}
 		return true
+	}
+	if t.StrFormat != "" {
+		// only values whose validity for the format is known to the harness are offered as candidates
+		valid, known := c12FormatValues[t.StrFormat][s]
+		if !known {
+			panic("harness: candidate " + s + " is not in the table of format " + t.StrFormat)
+		}
+		if !valid {
+			return false
+		}
 	}
 	if r := t.Rules; r != nil {
 		n := uint64(utf8.RuneCountInString(s))
@@ -286,6 +314,13 @@ func c12Candidates(d *c12Decl, rng *rand.Rand) []c12Value {
 	out = append(out, c12Value{desc: "unset", unset: true})
 	switch t.Kind {
 	case kString:
+		if t.StrFormat != "" {
+			out = nil // presence semantics of formats on empty / unset values are not part of the statement
+			for _, s := range rt.SortedKeys(c12FormatValues[t.StrFormat]) {
+				sv("format-candidate", s)
+			}
+			return out
+		}
 		sv("empty", "")
 		sv("one", "a")
 		lens := map[int]bool{1: true, 2: true}
@@ -460,6 +495,15 @@ func c12Declarations(rng *rand.Rand, systematic bool, n int) []*c12Decl {
 		}
 		presence("string/min2-max4", func() *jT { return tScalar(kString).with(func(t *jT) { t.Rules = &jRules{MinLen: pU(2), MaxLen: pU(4)} }) })
 		presence("string/pattern", func() *jT { return tScalar(kString).with(func(t *jT) { t.Rules = &jRules{Pattern: pS("^[a-z]+$")} }) })
+		for _, sf := range rt.SortedKeys(c12FormatValues) {
+			sf := sf
+			add("string-format/"+sf+"/plain", &jF{T: tScalar(kString).with(func(t *jT) { t.StrFormat = sf })})
+			add("string-format/"+sf+"/pattern", &jF{T: tScalar(kString).with(func(t *jT) { t.StrFormat = sf; t.Rules = &jRules{Pattern: pS(c12FormatPatterns[sf])} })})
+			add("string-format/"+sf+"/pattern-len", &jF{T: tScalar(kString).with(func(t *jT) {
+				t.StrFormat = sf
+				t.Rules = &jRules{Pattern: pS(c12FormatPatterns[sf]), MinLen: pU(3), MaxLen: pU(16)}
+			})})
+		}
 		presence("string/pattern-len", func() *jT {
 			return tScalar(kString).with(func(t *jT) { t.Rules = &jRules{Pattern: pS("^[a-z]+$"), MinLen: pU(2), MaxLen: pU(3)} })
 		})
